@@ -9,6 +9,7 @@ package main
 
 import (
 	"fmt"
+	"github.com/internetarchive/Zeno/internal/pkg/postprocessor/domainscrawl"
 	"io"
 	"net/http"
 	"net/url"
@@ -32,9 +33,12 @@ var tmpDir = func() string {
 	return d
 }()
 
+var crawledDomains = []string{"cdn.example", "www.example", "files.example", "api.example", "bare.example", "origin.example"}
+
 type response struct {
 	Header map[string]string
 	Body   string
+	DC     bool // --domains-crawl with the planted hosts as domains
 	Direct bool // skip archiver.ProcessBody: attach the sniffed MIME type and the spooled body directly (what Zeno's unit tests do)
 }
 
@@ -49,6 +53,12 @@ type result struct {
 func fetch(rawURL string, hops, maxHops int, r response) (res result) {
 	config.VerifSet(&config.Config{MaxHops: maxHops, MaxRedirect: 20, WorkersCount: 1,
 		NoStdoutLogging: true, NoStderrLogging: true, NoFileLogging: true})
+	domainscrawl.Reset()
+	if r.DC {
+		if err := domainscrawl.AddElements(crawledDomains); err != nil {
+			panic(err)
+		}
+	}
 	u := &models.URL{Raw: rawURL, Hops: hops}
 	if err := preprocessor.NormalizeURL(u, nil); err != nil {
 		res.Panic = "engine: document URL rejected: " + err.Error()
